@@ -103,6 +103,9 @@ func c20DecisionTable(c *Check, a *Anchors) {
 				return "checksum-prompt", "call"
 			case f.Name() == "Write" || f.Name() == "WriteChecksum" || f.Name() == "WriteTimestamp":
 				if f.Signature.Recv() != nil && recvName(f.Signature.Recv().Type()) == "CacheNode" {
+					if f.Name() == "Write" {
+						return "cache-write-content", "call" // the copy of the Taskfile itself
+					}
 					return "cache-write", "call"
 				}
 			case f.Name() == "Read" && f.Signature.Recv() != nil && recvName(f.Signature.Recv().Type()) == "CacheNode":
@@ -162,7 +165,7 @@ func c20DecisionTable(c *Check, a *Anchors) {
 				}
 			case e.Label == "checksum-prompt":
 				promptComputed = true
-			case e.Label == "cache-write":
+			case e.Label == "cache-write" || e.Label == "cache-write-content":
 				if !(promptComputed && approved) && len(badTrust) < 3 {
 					badTrust = append(badTrust, "the cache is written before the downloaded content was approved: "+p.String())
 				}
@@ -173,14 +176,17 @@ func c20DecisionTable(c *Check, a *Anchors) {
 			if !(promptComputed && approved) && len(badTrust) < 3 {
 				badTrust = append(badTrust, "downloaded bytes are returned without approval: "+p.String())
 			}
-			if !p.HasEvent("cache-write", "call") && len(badTrust) < 3 {
-				badTrust = append(badTrust, "approved download is returned without being cached: "+p.String())
+			if !p.HasEvent("cache-write-content", "call") && len(badTrust) < 3 {
+				// (also when the checksum equals the approved one: the checksum file can be there without the copy — an
+				// interrupted run, a partly cleaned cache — and only this write restores what --offline and the fallback read)
+				badTrust = append(badTrust, "approved download is returned without its content being written to the cache: "+p.String())
 			}
 		}
 		if v, ok := p.Asg["nil("+askKey+")"]; ok && !v {
 			nDeclined++
-			if out1 != "new(*errors.TaskfileNotTrustedError)" || p.HasEvent("cache-write", "call") {
-				badTrust = append(badTrust, fmt.Sprintf("a declined prompt ends with %q (cache written: %v): %s", out1, p.HasEvent("cache-write", "call"), p))
+			written := p.HasEvent("cache-write", "call") || p.HasEvent("cache-write-content", "call")
+			if out1 != "new(*errors.TaskfileNotTrustedError)" || written {
+				badTrust = append(badTrust, fmt.Sprintf("a declined prompt ends with %q (cache written: %v): %s", out1, written, p))
 			}
 		}
 		// offline
@@ -443,6 +449,67 @@ func c20TrustErrorPropagates(c *Check, a *Anchors) {
 		})
 	}
 	c.Floor("trust-error-propagates", n, 3)
+	// … and it keeps its type on the way: the exit status is picked by a type assertion on the error main receives (no
+	// unwrapping), so a carrier that returns fmt.Errorf("…: %w", err) turns 104 (103, 105, 106) into the generic 1. Not
+	// armed when main unwraps (errors.As).
+	unwraps := false
+	for _, fb := range c.P.Bodies() {
+		if fb.Pkg.PkgPath != Mod+"/cmd/task" || fb.Decl == nil {
+			continue
+		}
+		for _, call := range callsIn(fb, true) {
+			if fn, ok := callee(fb.Info(), call).(*types.Func); ok && fn.Name() == "As" && fn.Pkg() != nil && strings.HasSuffix(fn.Pkg().Path(), "errors") {
+				unwraps = true
+			}
+		}
+	}
+	if unwraps {
+		c.OK("trust-error-propagates", "typed-error-not-wrapped", 0, "cmd/task unwraps errors (errors.As): wrapping keeps the exit status")
+		return
+	}
+	ord := map[string]int{}
+	nw := 0
+	for _, fb := range c.P.BodiesIn(PkgTaskfile) {
+		info := fb.Info()
+		has := false
+		for _, call := range callsIn(fb, false) {
+			if fn, ok := callee(info, call).(*types.Func); ok {
+				if d := c.P.DeclOf(fn); d != nil && carrying[d] {
+					has = true
+				}
+			}
+		}
+		if !has || fb.Type.Results == nil || fb.Type.Results.NumFields() == 0 {
+			continue
+		}
+		f := NewFlow(c.P, fb, func(call *ast.CallExpr, obj types.Object) string {
+			if fn, ok := obj.(*types.Func); ok {
+				if d := c.P.DeclOf(fn); d != nil && carrying[d] {
+					return "trust-carrying"
+				}
+			}
+			return ""
+		})
+		f.Run()
+		for _, r := range f.Returns {
+			res := errResult(r)
+			if res == nil || !f.At[r].Has("nonnil:trust-carrying") {
+				continue
+			}
+			nw++
+			wrapped := false
+			if call, ok := ast.Unparen(res).(*ast.CallExpr); ok {
+				if fn, ok := callee(info, call).(*types.Func); ok && fn.Pkg() != nil && (fn.Pkg().Path() == "fmt" && fn.Name() == "Errorf" || fn.Pkg().Path() == "errors" && (fn.Name() == "Join" || fn.Name() == "New")) {
+					wrapped = true
+				}
+			}
+			c.Decide(!wrapped, "trust-error-propagates", ordinal(ord, "typed-error-not-wrapped@"+fnDisplay(fb)), r.Pos(), "the error is returned as it is (or as a typed error of the module)",
+				"on the error edge of a call that can report *TaskfileNotTrustedError this return yields `"+exprStr(res)+"`: the typed error is buried in a generic one, and cmd/task picks the exit status by a type assertion without unwrapping — the invocation ends with 1 instead of 104 (103, 105, 106)")
+		}
+	}
+	if nw == 0 {
+		c.Errorf("trust-error-propagates: no return on the error edge of a trust-carrying call found")
+	}
 }
 
 // c20ReadErrorNotMasked: what Reader.Read reports is what the invocation ends with.
